@@ -1476,6 +1476,39 @@ def guard_continue_to_else(func: ast.FunctionDef) -> ast.FunctionDef:
     return ast.fix_missing_locations(new) if changed else func
 
 
+def desugar_operator_calls(func: ast.FunctionDef) -> ast.FunctionDef:
+    """``operator.lt(a, b)`` -> ``a < b`` (likewise le / gt / ge / eq / ne / add / sub / mul / truediv / neg /
+    not_): the functions of the `operator` module are the operators, by definition."""
+    import copy as _copy
+
+    cmp_ops = {"lt": ast.Lt, "le": ast.LtE, "gt": ast.Gt, "ge": ast.GtE, "eq": ast.Eq, "ne": ast.NotEq, "is_": ast.Is, "is_not": ast.IsNot}
+    bin_ops = {"add": ast.Add, "sub": ast.Sub, "mul": ast.Mult, "truediv": ast.Div, "floordiv": ast.FloorDiv, "mod": ast.Mod, "pow": ast.Pow, "matmul": ast.MatMult}
+
+    def opname(n):
+        if isinstance(n, ast.Call) and isinstance(n.func, ast.Attribute) and isinstance(n.func.value, ast.Name) and n.func.value.id in ("operator", "op") and not n.keywords:
+            return n.func.attr
+        return None
+
+    if not any(opname(n) for n in ast.walk(func)):
+        return func
+
+    class T(ast.NodeTransformer):
+        def visit_Call(self, n):  # noqa: N802
+            self.generic_visit(n)
+            nm = opname(n)
+            if nm in cmp_ops and len(n.args) == 2:
+                return ast.copy_location(ast.Compare(left=n.args[0], ops=[cmp_ops[nm]()], comparators=[n.args[1]]), n)
+            if nm in bin_ops and len(n.args) == 2:
+                return ast.copy_location(ast.BinOp(left=n.args[0], op=bin_ops[nm](), right=n.args[1]), n)
+            if nm == "neg" and len(n.args) == 1:
+                return ast.copy_location(ast.UnaryOp(op=ast.USub(), operand=n.args[0]), n)
+            if nm == "not_" and len(n.args) == 1:
+                return ast.copy_location(ast.UnaryOp(op=ast.Not(), operand=n.args[0]), n)
+            return n
+
+    return ast.fix_missing_locations(T().visit(_copy.deepcopy(func)))
+
+
 def canon_ifexp_not(func: ast.FunctionDef) -> ast.FunctionDef:
     """``a if not c else b``  ->  ``b if c else a``."""
     import copy as _copy
@@ -1873,12 +1906,27 @@ def guard_return_to_else(func: ast.FunctionDef) -> ast.FunctionDef:
     top level of the body is ``if c: A`` / ``else: B``."""
     import copy as _copy
 
-    if any(isinstance(n, ast.Return) and n.value is not None and not (isinstance(n.value, ast.Constant) and n.value.value is None) for n in ast.walk(func)):
-        return func
     if any(isinstance(n, (ast.Yield, ast.YieldFrom)) for n in ast.walk(func)):
         return func
+    rets = [n for n in _walk_no_nested_defs(func) if isinstance(n, ast.Return)]
+    valued = [n for n in rets if n.value is not None and not (isinstance(n.value, ast.Constant) and n.value.value is None)]
+    tail = None
+    if valued:
+        # every return hands back the same side-effect-free expression (`return state, None`) and the body ends with it:
+        # the early returns are then jumps to that common exit
+        texts = {norm(n.value) for n in valued}
+        last = func.body[-1] if func.body else None
+        pure = all(isinstance(x, (ast.Name, ast.Constant, ast.Tuple, ast.Load, ast.Attribute)) for n in valued for x in ast.walk(n.value))
+        if len(valued) != len(rets) or len(texts) != 1 or not pure or not (isinstance(last, ast.Return) and last in valued):
+            return func
+        names = {x.id for x in ast.walk(valued[0].value) if isinstance(x, ast.Name)}
+        if any(isinstance(x, ast.Name) and isinstance(x.ctx, ast.Store) and x.id in names for x in ast.walk(func)):
+            return func  # a name of the returned expression is re-bound somewhere: the exits are not interchangeable
+        tail = last
     changed = False
     new = _copy.deepcopy(func)
+    if tail is not None:
+        new.body = new.body[:-1]
 
     def fix(body):
         nonlocal changed
@@ -1892,7 +1940,19 @@ def guard_return_to_else(func: ast.FunctionDef) -> ast.FunctionDef:
         return body
 
     new.body = fix(new.body)
+    if tail is not None:
+        new.body = new.body + [_copy.deepcopy(tail)]
     return ast.fix_missing_locations(new) if changed else func
+
+
+def _walk_no_nested_defs(func):
+    stack = list(func.body)
+    while stack:
+        n = stack.pop()
+        yield n
+        for c in ast.iter_child_nodes(n):
+            if not isinstance(c, (ast.FunctionDef, ast.AsyncFunctionDef, ast.Lambda, ast.ClassDef)):
+                stack.append(c)
 
 
 def merge_first_rest_loops(func: ast.FunctionDef, keep=frozenset()) -> ast.FunctionDef:
@@ -2123,6 +2183,7 @@ class Program:
                     f.node = expand_defaulted_mappings(f.node, keep=keep_l)
                     f.node = sink_tail_into_arms(f.node, keep=keep_l)
                     f.node = canon_ifexp_not(f.node)
+                    f.node = desugar_operator_calls(f.node)
                     f.node = unroll_const_table_dispatch(f.node, const_tables.get(m.name, {}))
                     f.node = expand_starred_tuple_args(f.node, keep=keep_l)
                     f.node = hoist_leading_walrus(f.node)
